@@ -11,6 +11,9 @@ Decided structural clauses:
  D5 scaling bookkeeping: an overriding / first scaling records the original extrema BEFORE the samples are transformed; a
     non-overriding scaling leaves them untouched and composes the factor; revert_scaling undoes factor then shift and resets
     every scaling attribute
+ D7 ownership of the sample / label arrays: arrays are shared between a DataSet and the sets derived from it (split_pieces hands
+    out label views, shift_value / scale_factor keep the label array, copy() shares both), so no DataSet operation may store into
+    the elements of a data array in place unless the DataSet owning it was built from fresh arrays in the same function
 Not decided: min/max land on the range ends, revert restores the samples (numerical), multiset preservation as a value property."""
 import ast
 
@@ -253,27 +256,91 @@ def run(prog, ctx):
     ctx.touch(mv)
     tmm = Terms(mv.node)
     swaps = {}
+    perm_swaps = {}
+    gathers = []
     for st in [n for n in walk_local(mv.node) if isinstance(n, ast.Assign)]:
         tg = st.targets[0]
         if isinstance(tg, ast.Subscript):
             tt = tmm.term(tg)
             tv = tmm.term(st.value)
-            if tt[0] == "s" and tv[0] == "s" and tt[1] == tv[1] and tt[1] in (D0, D1):
-                swaps[tt[1]] = (tt[2], tv[2], st)
+            if tt[0] == "s" and tv[0] == "s" and tt[1] == tv[1]:
+                if tt[1] in (D0, D1):
+                    swaps[tt[1]] = (tt[2], tv[2], st)
+                elif tt[1][0] == "n":
+                    perm_swaps.setdefault(tt[1][1], []).append((tt[2], tv[2]))
+    for s_ in R.self_stores(mv, "_data"):
+        if s_.kind == "plain" and s_.value is not None:
+            gathers.append(s_)
     n3 += 1
-    ok = D0 in swaps and D1 in swaps and swaps[D0][0] == swaps[D1][0] and swaps[D0][1] == swaps[D1][1]
-    if ok:
-        l, r = swaps[D0][0], swaps[D0][1]
-        ok = l[0] == "list" and r[0] == "list" and len(l) == 3 and (l[1], l[2]) == (r[2], r[1])
+
+    def mirrored(l, r):
+        return l[0] == "list" and r[0] == "list" and len(l) == 3 and (l[1], l[2]) == (r[2], r[1])
+    if gathers:
+        # re-assignment forms: self._data = (samples[order], labels[order]) with ONE index vector that starts as arange(n) and is only
+        # changed by exchanging two of its entries (so it stays a permutation of all positions); or private copies of both arrays that
+        # receive the same exchanges before they are stored
+        ok = not swaps
+
+        def modified_otherwise(nm):
+            for st in walk_local(mv.node):
+                if isinstance(st, ast.AugAssign) and any(isinstance(x, ast.Name) and x.id == nm for x in ast.walk(st.target)):
+                    return True
+                if isinstance(st, ast.Expr) and isinstance(st.value, ast.Call) and isinstance(st.value.func, ast.Attribute) \
+                        and isinstance(st.value.func.value, ast.Name) and st.value.func.value.id == nm:
+                    return True
+            return False
+
+        def descriptor(e, Dk):
+            t = tmm.term(e)
+            if t[0] == "s" and t[1] == Dk and t[2][0] == "n":
+                onm = t[2][1]
+                bs = tmm.env.bindings.get(onm, [])
+                starts = [b for b in bs if b.kind == "assign" and isinstance(b.value, ast.Call) and isinstance(b.value.func, ast.Attribute)
+                          and b.value.func.attr == "arange" and len(b.value.args) == 1]
+                if len(bs) == 1 and len(starts) == 1 and perm_swaps.get(onm) and all(mirrored(l, r) for (l, r) in perm_swaps[onm]) \
+                        and not modified_otherwise(onm):
+                    return ("gather", onm)
+                return None
+            if isinstance(e, ast.Name):
+                bs = tmm.env.bindings.get(e.id, [])
+                if len(bs) == 1 and bs[0].kind == "assign" and isinstance(bs[0].value, ast.Call):
+                    c = bs[0].value
+                    src_ = None
+                    if isinstance(c.func, ast.Attribute) and c.func.attr == "copy" and not c.args:
+                        src_ = tmm.term(c.func.value)
+                    elif isinstance(c.func, ast.Attribute) and c.func.attr == "array" and len(c.args) == 1:
+                        src_ = tmm.term(c.args[0])
+                    if src_ == Dk and perm_swaps.get(e.id) and all(mirrored(l, r) for (l, r) in perm_swaps[e.id]) and not modified_otherwise(e.id):
+                        return ("copyswap", tuple(perm_swaps[e.id]))
+            return None
+        for s_ in gathers:
+            v = s_.value
+            elts = None
+            if isinstance(v, ast.Call) and isinstance(v.func, ast.Name) and v.func.id == "tuple" and v.args and isinstance(v.args[0], (ast.List, ast.Tuple)):
+                elts = v.args[0].elts
+            elif isinstance(v, ast.Tuple):
+                elts = v.elts
+            if not elts or len(elts) != 2:
+                ok = False
+                continue
+            d0, d1 = descriptor(elts[0], D0), descriptor(elts[1], D1)
+            ok = ok and d0 is not None and d0 == d1
+    else:
+        ok = D0 in swaps and D1 in swaps and swaps[D0][0] == swaps[D1][0] and swaps[D0][1] == swaps[D1][1]
+        if ok:
+            ok = mirrored(swaps[D0][0], swaps[D0][1])
     ctx.check(ok, "C18.D3", R.key_of(mv, "aligned:swap"), mv.loc(),
-              "samples and labels are swapped with the same index pair",
-              "move_boundaries_to_front does not swap samples and labels with the same index pair")
+              "samples and labels are reordered with the same permutation (one index vector built from arange by exchanging pairs, or the same "
+              "exchange applied to both arrays)",
+              "move_boundaries_to_front does not reorder samples and labels with the same permutation of all positions")
     ctx.floor("C18.D3", n3, 5, "parallel-array instances")
 
     # ------------------------------------------------------------------ D5
     check_bookkeeping(prog, ctx, ds)
     # ------------------------------------------------------------------ D6
     check_split_labels(prog, ctx, ds, D0, D1)
+    # ------------------------------------------------------------------ D7
+    check_no_inplace_on_shared_arrays(prog, ctx, ds)
 
     # ------------------------------------------------------------------ D4
     cr = cfg_of(rs)
@@ -465,7 +532,9 @@ def check_bookkeeping(prog, ctx, ds):
                 if bd_ is not None and bd_.kind == "assign" and any(isinstance(y_, ast.Attribute) and y_.attr == "get_min_data" for y_ in ast.walk(bd_.value)):
                     if cr.node_of(bd_.stmt).idx not in cr.reachable_after(cr.node_containing(sf)):
                         oksh = False
-        nonover = all(not any(k.arg == "override_scaling" and not (isinstance(k.value, ast.Constant) and k.value.value is False) for k in x.keywords) for (x, n) in calls)
+        from ..callnorm import bound_argument
+        ovs = [bound_argument(prog, rv, x, "override_scaling") for (x, n) in calls]
+        nonover = all(o is None or (isinstance(o, ast.Constant) and o.value is False) for o in ovs)
         ok = okf and oksh and nonover
         why = "revert_scaling: factor undone by 1/_scaling_factor=%s, shift back to _original_min=%s, non-overriding calls=%s" % (okf, oksh, nonover)
     resets = {s_.attr for s_ in R.self_stores(rv) if s_.kind == "plain" and isinstance(s_.value, ast.Constant) and s_.value.value in (None, False)
@@ -603,3 +672,116 @@ def _label_filters(fi, D0, D1):
             p = ("cmp", "Eq", ("$L",), ("c", "-1"))
         out.append((kind, comp_kind, p))
     return out
+
+
+# ---------------------------------------------------------------------------------------------------------------- D7
+FRESH_ARRAY_CALLS = {"array", "concatenate", "zeros", "ones", "full", "empty", "copy", "vstack", "hstack", "append", "transform"}
+
+
+def _is_fresh_array(e):
+    """an expression that evaluates to a newly allocated array (np.array(...), np.concatenate(...), x.copy(), a comprehension)"""
+    if isinstance(e, ast.Call):
+        f = e.func
+        name = f.attr if isinstance(f, ast.Attribute) else (f.id if isinstance(f, ast.Name) else None)
+        return name in FRESH_ARRAY_CALLS
+    return isinstance(e, (ast.ListComp, ast.List))
+
+
+def _fresh_producers(prog, ds):
+    """methods of DataSet all of whose returned DataSets are built in the method from fresh arrays only:
+    {method name: number of constructor sites}"""
+    out = {}
+    for name, fi in ds.methods.items():
+        tm = Terms(fi.node, max_depth=0)
+        cons = [c for c in R.calls_in(fi.node, func="DataSet")]
+        if not cons:
+            continue
+        ok = True
+        for c in cons:
+            args = list(c.args[:1])
+            if not args:
+                continue
+            a = args[0]
+            if isinstance(a, ast.Name):
+                b = tm.env.single(a.id)
+                a = b.value if b is not None and b.kind == "assign" and b.value is not None else a
+            comps = None
+            if isinstance(a, ast.Call) and isinstance(a.func, ast.Name) and a.func.id == "tuple" and a.args and isinstance(a.args[0], (ast.List, ast.Tuple)):
+                comps = a.args[0].elts
+            elif isinstance(a, ast.Tuple):
+                comps = a.elts
+            else:
+                comps = [a]
+            for x in comps:
+                if isinstance(x, ast.Name):
+                    b = tm.env.single(x.id)
+                    x = b.value if b is not None and b.kind == "assign" and b.value is not None else x
+                if not _is_fresh_array(x):
+                    ok = False
+        # what is returned must be those constructed sets (names bound to the constructor calls / tuples of them)
+        if ok:
+            out[name] = len(cons)
+    return out
+
+
+def check_no_inplace_on_shared_arrays(prog, ctx, ds):
+    fresh = _fresh_producers(prog, ds)
+    n_sites = 0
+    n_methods = 0
+    for fi in sorted(prog.functions.values(), key=lambda f: f.qual):
+        if fi.module is not ds.module:
+            continue
+        n_methods += 1
+        tm = Terms(fi.node, max_depth=0)
+
+        def owner_of(e, depth=0):
+            """the expression X when e denotes X._data, X._data[k] (directly or through local aliases), else None"""
+            if depth > 4:
+                return None
+            if isinstance(e, ast.Subscript):
+                return owner_of(e.value, depth + 1)
+            if isinstance(e, ast.Attribute) and e.attr == "_data":
+                return e.value
+            if isinstance(e, ast.Name):
+                bs = tm.env.bindings.get(e.id, [])
+                owners = [owner_of(b.value, depth + 1) for b in bs if b.kind == "assign" and b.value is not None]
+                owners = [o for o in owners if o is not None]
+                return owners[0] if owners else None
+            return None
+        for st in walk_local(fi.node):
+            targets = []
+            if isinstance(st, ast.Assign):
+                targets = st.targets
+            elif isinstance(st, ast.AugAssign):
+                targets = [st.target]
+            for t in targets:
+                for el in (t.elts if isinstance(t, (ast.Tuple, ast.List)) else [t]):
+                    if not isinstance(el, ast.Subscript):
+                        continue
+                    own = owner_of(el.value)
+                    if own is None:
+                        continue
+                    n_sites += 1
+                    ok = False
+                    why = "`%s` writes into the array of `%s` in place" % (src(st)[:70], src(own))
+                    if isinstance(own, ast.Name) and own.id != (fi.self_name or "self"):
+                        bs = tm.env.bindings.get(own.id, [])
+                        prods = []
+                        for b in bs:
+                            v = b.value
+                            if b.kind in ("assign", "unpack") and isinstance(v, ast.Call) and isinstance(v.func, ast.Attribute):
+                                prods.append(v.func.attr)
+                            else:
+                                prods.append(None)
+                        ok = bool(prods) and all(p_ in fresh for p_ in prods)
+                        if not ok:
+                            why += "; `%s` is not the result of a method that builds its DataSets from fresh arrays (%s)" % (own.id, sorted(fresh))
+                    else:
+                        why += "; the arrays of self may be shared with the DataSet it was derived from (split_pieces views, copy(), shift_value / " \
+                               "scale_factor keep the label array)"
+                    ctx.check(ok, "C18.D7", R.key_of(fi, "inplace-store:%s" % src(el.value)[:40]), fi.loc(st),
+                              "the only in-place element stores into data arrays act on DataSets freshly built in the same function",
+                              why)
+    ctx.note("C18.D7", "%s::array-ownership" % DS, "sparseSpACE/DEMachineLearning.py",
+             "%d in-place element store(s) into DataSet arrays analysed in %d functions; fresh-array producers: %s" % (n_sites, n_methods, sorted(fresh)))
+    ctx.floor("C18.D7", len(fresh), 1, "DataSet methods that build their results from fresh arrays")
